@@ -22,8 +22,7 @@ CFGS = ["source_width=64 source_height=64 enc_mode=8 logical_processors=%d recon
         # screen-content tools allocate per-picture side structures (intra-block-copy hash tables, palette) that only exist for pictures >= 128x128
         "source_width=128 source_height=128 enc_mode=8 logical_processors=%d recon_enabled=%d screen_content_mode=1",
         "source_width=192 source_height=128 enc_mode=6 logical_processors=%d recon_enabled=%d screen_content_mode=1 intrabc_mode=1 palette_level=1",
-        "source_width=128 source_height=128 enc_mode=8 logical_processors=%d recon_enabled=%d film_grain_denoise_strength=8",
-        "source_width=160 source_height=96 enc_mode=7 logical_processors=%d recon_enabled=%d superres_mode=1 superres_denom=12 superres_kf_denom=10",
+        "source_width=160 source_height=96 enc_mode=7 logical_processors=%d recon_enabled=%d hierarchical_levels=2 intra_period_length=3",
         "source_width=128 source_height=128 enc_mode=4 logical_processors=%d recon_enabled=%d tile_rows=1 tile_columns=1"]
 
 
